@@ -42,6 +42,8 @@ def run(prog, rep, tier, snap):
     rep.call(bitint.r19_10, prog, rep)
     rep.rule("R19.9", "signed mask words are not compared relationally in bitset mode", 2)
     rep.call(bitint.r19_9, prog, rep)
+    rep.rule("R19.12", "the unsigned iterators leave the cursor at member + 1 in both representations (value-fixed walk)", 2)
+    rep.call(bitint.r19_12, prog, rep)
     from ..rules import state
     rep.rule("R19.8", "the containers' functions carry no state from one container to the next", 1)
     rep.call(state.no_carried_state, prog, rep, "R19.8", "bitint")
